@@ -23,6 +23,7 @@
 //!     extension EXECUTE carries the result metadata id (empty when metadata is not skipped)
 //!   * values: the bound Rust values serialised as int = 4 bytes big-endian, text = UTF-8
 use scylla::client::SelfIdentity;
+use scylla::errors::{ExecutionError, PrepareError, RequestAttemptError};
 use scylla::client::session_builder::SessionBuilder;
 use scylla::response::PagingState;
 use scylla::statement::batch::{Batch, BatchType};
@@ -114,20 +115,40 @@ fn user_frames(cluster: &mock::MockCluster, ids: &[Vec<u8>], ext: bool) -> Vec<V
 
 /// Why a scenario produced no judgement.
 pub enum E2eErr {
-    /// the scenario could not run: mock or session start, timeouts / broken connections (counted, capped)
+    /// the scenario could not run: mock or session start; a call failing with an empty plan, a connection-pool error,
+    /// a client timeout or a broken connection (decided on the error enums) (counted, capped)
     Env(String),
     /// the implementation did something the scenario does not allow for (a request failed although the node
     /// answers every request): reported as a broken correspondence, never as ok
     Deviation(String),
 }
-fn classify(what: &str, e: impl std::fmt::Display) -> E2eErr {
-    let msg = format!("{what}: {e}");
-    let l = msg.to_lowercase();
-    if ["timed out", "timeout", "connection", "broken", "i/o", "io error", "pool"].iter().any(|k| l.contains(k)) {
-        E2eErr::Env(msg)
-    } else {
-        E2eErr::Deviation(msg)
+/// Environment = the error ENUM says the connection / pool / client timeout failed; everything else (a database
+/// error, a serialisation or protocol error, ...) is a deviation of the implementation.
+fn attempt_is_env(e: &RequestAttemptError) -> bool {
+    matches!(e, RequestAttemptError::BrokenConnectionError(_))
+}
+fn prepare_is_env(e: &PrepareError) -> bool {
+    match e {
+        PrepareError::ConnectionPoolError(_) => true,
+        PrepareError::AllAttemptsFailed { first_attempt } => attempt_is_env(first_attempt),
+        _ => false,
     }
+}
+fn exec_is_env(e: &ExecutionError) -> bool {
+    match e {
+        ExecutionError::EmptyPlan | ExecutionError::ConnectionPoolError(_) | ExecutionError::RequestTimeout(_) => true,
+        ExecutionError::LastAttemptError(a) => attempt_is_env(a),
+        ExecutionError::PrepareError(p) => prepare_is_env(p),
+        _ => false,
+    }
+}
+fn classify_prepare(e: PrepareError) -> E2eErr {
+    let msg = format!("prepare: {e}");
+    if prepare_is_env(&e) { E2eErr::Env(msg) } else { E2eErr::Deviation(msg) }
+}
+fn classify(what: &str, e: ExecutionError) -> E2eErr {
+    let msg = format!("{what}: {e}");
+    if exec_is_env(&e) { E2eErr::Env(msg) } else { E2eErr::Deviation(msg) }
 }
 
 pub async fn run(serial: u64) -> Result<String, E2eErr> {
@@ -179,8 +200,8 @@ pub async fn run(serial: u64) -> Result<String, E2eErr> {
         .build()
         .await
         .map_err(|e| E2eErr::Env(format!("session: {e}")))?;
-    let prep_sel = session.prepare(select).await.map_err(|e| classify("prepare", e))?;
-    let prep_ins = session.prepare(insert).await.map_err(|e| classify("prepare", e))?;
+    let prep_sel = session.prepare(select).await.map_err(classify_prepare)?;
+    let prep_ins = session.prepare(insert).await.map_err(classify_prepare)?;
     let sel_id = cluster.prepared_id(select);
     let ins_id = cluster.prepared_id(insert);
     let ids = vec![sel_id.clone(), ins_id.clone()];
